@@ -117,8 +117,12 @@ def run_impl(prop, seed, tier, outdir, timeout):
         shutil.rmtree(outdir)
     os.makedirs(outdir)
     binary = "impl-race" if PROPS.PROPS[prop].get("race") else "impl"
-    r = run([os.path.join(BUILD, binary), "-prop", prop, "-seed", str(seed), "-tier", tier, "-out", outdir],
-            cwd=HARNESS, env=GOENV, timeout=timeout)
+    try:
+        r = run([os.path.join(BUILD, binary), "-prop", prop, "-seed", str(seed), "-tier", tier, "-out", outdir],
+                cwd=HARNESS, env=GOENV, timeout=timeout)
+    except subprocess.TimeoutExpired as e:
+        out = e.stdout if isinstance(e.stdout, str) else (e.stdout or b"").decode("utf-8", "replace")
+        return None, "implementation driver did not finish within %s s (hang?)\n%s" % (timeout, out[-2000:])
     if r.returncode != 0:
         return None, r.stdout
     return json.load(open(os.path.join(outdir, "result.json"))), r.stdout
@@ -302,11 +306,37 @@ def setup():
     print("setup ok")
     return 0
 
+def coqchk():
+    """Independent re-check of the compiled development (coqchk -silent -o over every Props module)
+    on a scratch copy, so that no check running meanwhile sees half-written .vo files.  Prints the
+    context summary (axioms, type-in-type, unsafe fixpoints, assumed positivity)."""
+    import tempfile
+    ok, out = build_coq()
+    if not ok:
+        print(out[-2000:]); return 1
+    tmp = tempfile.mkdtemp(prefix="avro-coqchk-")
+    try:
+        dst = os.path.join(tmp, "coq")
+        shutil.copytree(COQ, dst)
+        mods = sorted("Avro.Props." + f[:-3] for f in os.listdir(os.path.join(dst, "Props")) if f.endswith(".vo"))
+        r = run(["timeout", "7200", "coqchk", "-silent", "-o", "-Q", ".", "Avro"] + mods, cwd=dst)
+        txt = r.stdout
+        i = txt.find("CONTEXT SUMMARY")
+        print(txt[i:] if i >= 0 else txt[-3000:])
+        os.makedirs(os.path.join(ROOT, "build"), exist_ok=True)
+        open(os.path.join(ROOT, "build", "coqchk.log"), "w").write(txt)
+        bad = r.returncode != 0 or "Axioms: <none>" not in txt.replace("\n", " ")
+        return 1 if bad else 0
+    finally:
+        shutil.rmtree(tmp, ignore_errors=True)
+
 def main(argv):
     if not argv:
         print(__doc__); return 2
     if argv[0] == "setup":
         return setup()
+    if argv[0] == "coqchk":
+        return coqchk()
     seed = int(os.environ.get("VERIF_SEED", "1") or "1")
     if argv[0] == "all":
         tier = argv[1] if len(argv) > 1 else "quick"
